@@ -198,6 +198,8 @@ def playback_print(harness, log_path, harness_timeout=900):
     tests = [t for t in tests if "#[test]" in t]
     if not tests:
         return None, log
-    # Kani prints one test per satisfied cover and one per failed check: prefer a failed check
+    # Kani prints one test per satisfied cover and one per failed check (and omits the latter when a cover test has
+    # the same concrete values): failed-check tests first, then the cover tests; all of them are replayed natively
     noncover = [t for t in tests if not re.search(r"Check for `cover`", t)]
-    return (noncover or tests)[0], log
+    cover = [t for t in tests if re.search(r"Check for `cover`", t)]
+    return "\n".join(noncover + cover), log
